@@ -107,8 +107,8 @@ Definition decwork_reset (w : decwork) (r : rate) (K R sb : N) : decwork * bool 
   let rbase := match r with High => 0 | Low => np2 K end in
   let need := wc * blocks_of sb in
   let maxpos := N.max (obase + K) (rbase + R) in
-  (* the bitmap allocates 4-byte words; requests below 64 bytes are not events *)
-  let bits_grow := (dw_bits w <? maxpos) && (64 <=? ((maxpos + 31) / 32) * 4) in
+  (* FixedBitSet::grow is called exactly when the bitmap is too short *)
+  let bits_grow := dw_bits w <? maxpos in
   ({| dw_K := K; dw_R := R; dw_sb := sb; dw_obase := obase; dw_rbase := rbase;
       dw_orecv := 0; dw_rrecv := 0; dw_received := pempty; dw_mem := mempty; dw_wc := wc;
       dw_cap := N.max (dw_cap w) need; dw_bits := N.max (dw_bits w) maxpos |},
@@ -410,7 +410,10 @@ Definition step (s0 : state) (o : op) : state * result :=
     match s_enc s with
     | None => (s, RNoObj)
     | Some x => let '(x', r) := enc_encode (s_epoch s) x probes in
-                (bump (set_enc s (Some x') false), r)
+                match r with
+                | RError _ => (s, r)
+                | _ => (bump (set_enc s (Some x') false), r)
+                end
     end
   | DNew c e K R sb =>
     match dec_make c e K R sb decwork_new with
@@ -468,13 +471,24 @@ Definition step (s0 : state) (o : op) : state * result :=
     match s_dec s with
     | None => (s, RNoObj)
     | Some x => let '(x', r) := dec_decode (s_epoch s) x probes in
-                (bump (set_dec s (Some x') false), r)
+                match r with
+                | RError _ => (s, r)
+                | _ => (bump (set_dec s (Some x') false), r)
+                end
     end
   | Supports c K R => (s, RBool (supportsb c K R))
   | Validate c K R sb =>
     (s, match validateb c K R sb with Some e => RError e | None => ROkUnit end)
-  | OneEnc K R shards => (bump s, oneshot_encode (s_epoch s) K R shards)
-  | OneDec K R orig rec => (bump s, oneshot_decode (s_epoch s) K R orig rec)
+  | OneEnc K R shards =>
+    match oneshot_encode (s_epoch s) K R shards with
+    | RError e => (s, RError e)
+    | r => (bump s, r)
+    end
+  | OneDec K R orig rec =>
+    match oneshot_decode (s_epoch s) K R orig rec with
+    | RError e => (s, RError e)
+    | r => (bump s, r)
+    end
   end.
 
 Definition run (s : state) (ops : list op) : state * list result :=
